@@ -23,7 +23,7 @@ pub const ENTRY: Entry = Entry {
            out-of-bounds attempt: all sizes 0..=96 squared (thorough 0..=200) plus strips up to 65535, for Rgb565/Rgb666/Rgb888; (b) \
            through the real Display for windows 32x32..40x35 of a 40x35 framebuffer in all 8 orientations and for built-in 128x160 and \
            240x320 panels and for every built-in model x {3 orientations, 2 colour orders, 2 inversions, reset pin given before/after the options/absent}, also after clear + set_orientation, decoded by the reference controller, \
-           transformed to what a viewer sees (red/blue exchanged when the controller's colour order bit differs from the configured one, complemented when the inversion differs) and compared with (a). Oracle: never panics; for >= 32x32: every pixel \
+           transformed to what a viewer sees (red/blue exchanged when the controller's colour order bit differs from the configured one, complemented when the inversion differs) and compared with (a). (c) through the real Display for every small window (1..=40 x 1..=12 and 1..=12 x 13..=35): no panic, no error, no protocol violation. Oracle: never panics; for >= 32x32: every pixel \
            painted, outermost rows/columns pure white and the ring inside it not white, every interior row filtered to pure R/G/B \
            pixels reads R*G*B* with all three present in some row, and the picture differs from each of its rotated/mirrored versions \
            of equal dimensions. Non-trivial = sizes >= 32x32.",
@@ -370,7 +370,36 @@ fn run(ctx: &Ctx) -> Part {
             acc
         })
         .reduce(Acc::new, Acc::merge);
-    let mut acc = a.merge(b);
+    // small real displays (every window 1..=40 x 1..=12 and 1..=12 x 13..=35 of the 40x35 external model, two
+    // orientations): TestImage relies only on the target's clipping - on the real Display that is Display's own
+    // fill_contiguous / fill_solid / draw_iter clipping - and must not panic, fail or violate the protocol
+    let mut small: Vec<Cfg> = Vec::new();
+    for w in 1..=40u16 {
+        for h in 1..=35u16 {
+            if h <= 12 || w <= 12 {
+                small.push(Cfg::tiny(40, 35, false, Transport::RecSerial, (w, h, (40 - w) / 2, (35 - h) / 3), if (w + h) % 2 == 0 { 0 } else { 5 }));
+            }
+        }
+    }
+    let c = small
+        .par_iter()
+        .fold(Acc::new, |mut acc, cfg| {
+            acc.evaluations += 1;
+            let mut rig = Rig::new(cfg);
+            let out = rig.apply(&Op::TestImage);
+            acc.count("small_displays_no_panic", 1);
+            if !out.is_ok() || !rig.ctl.viols.is_empty() {
+                acc.violation(Violation {
+                    prop: ctx.prop.clone(),
+                    sig: if matches!(out, Outcome::Panic(_)) { "test-image/display/panic".into() } else { "test-image/display/small".into() },
+                    msg: format!("TestImage on a real display with window {:?}, orientation {}: outcome {out:?}, protocol {:?}", cfg.win, cfg.orient, rig.ctl.viols.first()),
+                    case: json!({"variant": ctx.variant, "cfg": cfg, "faults": [], "history": [Op::TestImage], "checks": "all"}),
+                });
+            }
+            acc
+        })
+        .reduce(Acc::new, Acc::merge);
+    let mut acc = a.merge(b).merge(c);
     acc.states = (sizes.len() * 3 + cfgs.len()) as u64;
     acc.transitions = acc.evaluations;
     acc.traces = acc.evaluations;
@@ -380,6 +409,7 @@ fn run(ctx: &Ctx) -> Part {
     let mut part = Part::new(ctx, acc, bounds, true, t0.elapsed().as_secs_f64());
     part.require("display_configurations", 1);
     part.require("small_targets_no_panic", 1);
+    part.require("small_displays_no_panic", 100);
     part
 }
 
